@@ -12,6 +12,7 @@ import (
 	"regexp"
 	"sort"
 	"strings"
+	"sync/atomic"
 	"syscall"
 	"time"
 )
@@ -278,6 +279,8 @@ func firstLineWith(s string, subs ...string) string {
 	return ""
 }
 
+var subSeq int64
+
 // SubResult is the outcome of a child-mode process.
 type SubResult struct {
 	Stdout     []byte
@@ -305,8 +308,7 @@ func (r *SubResult) Crash() (bool, string, string) {
 // stderr in a file. On watchdog expiry the child gets SIGQUIT so that the
 // goroutine dump lands in the stderr file.
 func (c *Ctx) Sub(mode string, args []string, stdin []byte, env []string, timeout time.Duration) *SubResult {
-	n := c.Get("_sub_seq")
-	c.Count("_sub_seq", 1)
+	n := atomic.AddInt64(&subSeq, 1)
 	errPath := filepath.Join(c.Dir, fmt.Sprintf("sub-%s-%d.stderr", mode, n))
 	errf, _ := os.Create(errPath)
 	defer errf.Close()
